@@ -11,7 +11,7 @@ RULE = ('histories generated from VERIF_SEED by checks/wl_gen.py (families: rand
         'a history is non-trivial when it contains >= 1 flush and >= 1 compaction; distinct = distinct (family, options, counters)')
 
 
-def run(pid, tier, tags, theorems, imports, targets, quick=(24, 45), thorough=(400, 120), families=None, extra=None):
+def run(pid, tier, tags, theorems, imports, targets, quick=(24, 45), thorough=(400, 120), families=None, extra=None, journal=False):
     chk = Check(pid, tier)
     lean_stage(chk, theorems, imports, list(targets) + ['tracecheck'])
     n, nops = quick if tier == 'quick' else thorough
@@ -19,9 +19,9 @@ def run(pid, tier, tags, theorems, imports, targets, quick=(24, 45), thorough=(4
     if families:
         per = max(1, n // len(families))
         for fam in families:
-            wl_run.run_histories(chk, per, nops, tags, 'histories-' + fam, family=fam)
+            wl_run.run_histories(chk, per, nops, tags, 'histories-' + fam, family=fam, journal=journal)
     else:
-        wl_run.run_histories(chk, n, nops, tags, 'histories')
+        wl_run.run_histories(chk, n, nops, tags, 'histories', journal=journal)
     if extra:
         extra(chk, tier)
     chk.assumptions += ['memtable and table files are abstracted as sorted runs (table bytes <-> run is C16; skiplist order is checked by the mem dumps)',
